@@ -319,6 +319,11 @@ func (c *Collection) WriteCas(key string, exp Exp, cas CAS, val any, opt sgbucke
 	}
 	if raw == nil {
 		isJSON = false
+		if opt&(sgbucket.Append|sgbucket.AddOnly) == 0 {
+			// Writing a nil value deletes the document (this is how Update deletes):
+			// make a proper tombstone, exactly as Remove does.
+			return c.remove(key, &cas)
+		}
 	}
 
 	err = c.withNewCas(func(txn *sql.Tx, newCas CAS) (*event, error) {
